@@ -100,7 +100,50 @@ def apply_rewrites(src, rules, fname):
     """rules: list of dicts(kind='lit'|'re', pat, rep, count=int|None|'+', name)."""
     log = []
     for r in rules:
-        if r.get('kind') == 'assert_diverge':
+        if r.get('kind') == 'drop_item':
+            n = 0
+            new = src
+            while True:
+                mk = rsx.mask(new)
+                mm = re.search(r['pat'], mk, flags=re.M)
+                if not mm:
+                    break
+                j = mm.end()
+                while True:
+                    if mk[j] == ';':
+                        end = j + 1
+                        break
+                    if mk[j] == '{':
+                        end = rsx.match_close(mk, j) + 1
+                        break
+                    if mk[j] in '([':
+                        j = rsx.match_close(mk, j)
+                    j += 1
+                new = new[:mm.start()] + '/* dropped item: %s */' % r['name'] + new[end:]
+                n += 1
+        elif r.get('kind') == 'mutself':
+            # R-mutself: fn NAME(mut self ...) { B }  ->  fn NAME(self ...) { let mut slf = self; B[self->slf] }
+            n = 0
+            new = src
+            mk = rsx.mask(new)
+            for mm in reversed(list(re.finditer(r'\bfn\s+%s\s*(<[^(]*>)?\s*\(\s*mut self\b' % r['fn'], mk))):
+                bo = mk.find('{', mm.end())
+                # body brace: first '{' after the parameter list
+                po = mk.find('(', mm.start())
+                pc = rsx.match_close(mk, po)
+                bo = mk.find('{', pc)
+                bc = rsx.match_close(mk, bo)
+                body = new[bo + 1:bc]
+                mbody = mk[bo + 1:bc]
+                out, last = [], 0
+                for m2 in re.finditer(r'\bself\b', mbody):
+                    out.append(body[last:m2.start()])
+                    out.append('slf')
+                    last = m2.end()
+                out.append(body[last:])
+                new = new[:mm.start()] + new[mm.start():mm.end()].replace('mut self', 'self') + new[mm.end():bo + 1] + ' let mut slf = self;' + ''.join(out) + new[bc:]
+                n += 1
+        elif r.get('kind') == 'assert_diverge':
             new, n = assert_diverge(src)
         elif r.get('kind', 'lit') == 'lit':
             n = src.count(r['pat'])
